@@ -23,7 +23,9 @@ M64 = 2**64
 RINV = pow(R, -1, P)
 
 
-def dump_mir(log):
+def dump_mir(log, crate="sharks"):
+    if crate != "sharks":
+        return dump_mir_crate(log, crate)
     scratch = tempfile.mkdtemp(prefix="verif-mir-")
     try:
         d = os.path.join(scratch, "sharks")
@@ -45,6 +47,44 @@ def dump_mir(log):
         t = time.time()
         r = subprocess.run(cmd, cwd=d, env=env, stdout=subprocess.PIPE, stderr=subprocess.PIPE, text=True)
         log("  MIR dump: rc=%d, %d lines, %.0fs" % (r.returncode, r.stdout.count("\n"), time.time() - t))
+        if r.returncode != 0 or r.stdout.count("\n") < 1000:
+            log(r.stderr[-1500:])
+            return None
+        return r.stdout
+    finally:
+        shutil.rmtree(scratch, ignore_errors=True)
+
+
+def dump_mir_crate(log, crate, features=("key-sync",)):
+    """MIR of another workspace member (scratch copy of the current tree, benches /
+    dev-dependencies stripped so that nothing outside the crate's own graph is needed)"""
+    scratch = tempfile.mkdtemp(prefix="verif-mir-")
+    try:
+        d = os.path.join(scratch, crate)
+        shutil.copytree(os.path.join(REPO, crate), d, ignore=shutil.ignore_patterns("target", "benches", "examples"))
+        shutil.copyfile(os.path.join(REPO, "Cargo.lock"), os.path.join(d, "Cargo.lock"))
+        out, skip = [], False
+        for line in open(os.path.join(d, "Cargo.toml")).read().splitlines():
+            if line.startswith("[[bench]]") or line.startswith("[dev-dependencies]") or line.startswith("[[example]]"):
+                skip = True
+                continue
+            if line.startswith("["):
+                skip = False
+            if not skip:
+                out.append(line)
+        open(os.path.join(d, "Cargo.toml"), "w").write("\n".join(out) + "\n[workspace]\n")
+        env = dict(os.environ)
+        env["CARGO_NET_OFFLINE"] = "true"
+        env.pop("RUSTUP_TOOLCHAIN", None)
+        tdir = os.path.join(VERIF, ".cache", "mir-target-" + crate)
+        os.utime(os.path.join(d, "src", "lib.rs"))
+        cmd = ["cargo", "+nightly", "rustc", "--offline", "--lib", "--target-dir", tdir]
+        if features:
+            cmd += ["--features", ",".join(features)]
+        cmd += ["--", "-Zunpretty=mir", "-C", "debug-assertions=off", "-C", "overflow-checks=on"]
+        t = time.time()
+        r = subprocess.run(cmd, cwd=d, env=env, stdout=subprocess.PIPE, stderr=subprocess.PIPE, text=True)
+        log("  MIR dump (%s): rc=%d, %d lines, %.0fs" % (crate, r.returncode, r.stdout.count("\n"), time.time() - t))
         if r.returncode != 0 or r.stdout.count("\n") < 1000:
             log(r.stderr[-1500:])
             return None
@@ -220,6 +260,8 @@ def model_inputs(raw):
     for _, txt in raw.values():
         for m in re.finditer(r"\((\w+) (\d+)\)", txt):
             out[m.group(1)] = int(m.group(2))
+        for m in re.finditer(r"\((\w+) (true|false)\)", txt):
+            out[m.group(1)] = (m.group(2) == "true")
         if out:
             break
     return out
@@ -313,10 +355,220 @@ def run(obs, tier, seed, log, logdir):
     results = []
     if any(o["name"].startswith("c07::") for o in obs):
         results += run_c07([o for o in obs if o["name"].startswith("c07::")], tier, seed, log, logdir)
-    rest = [o for o in obs if not o["name"].startswith("c07::")]
+    nat = [o for o in obs if o["name"].startswith("native::")]
+    if nat:
+        results += run_native(nat, tier, seed, log, logdir)
+    g = [o for o in obs if o["name"].startswith("ggm::")]
+    if g:
+        results += run_ggm(g, tier, seed, log, logdir)
+    rest = [o for o in obs if not o["name"].startswith(("c07::", "ggm::", "native::"))]
     if rest:
         results += run_recover(rest, tier, seed, log, logdir)
     return results
+
+
+def e2e_scenarios(seed, tier):
+    rnd = random.Random(seed)
+    out = []
+    ms = [b"", b"m", b"abc", bytes(rnd.randrange(256) for _ in range(300))]
+    es = [b"", b"e"]
+    auxsets = [[None, None, None, None, None], ["", "00ff", None, "01", ""], ["aa" * 200, None, "", "bb", None]]
+    sels = {1: [[0], [1, 1], [2, 0, 1]], 2: [[0, 1], [1, 0, 1], [0, 0], [3, 3, 3, 1], [4]], 3: [[0, 1, 2], [0, 1, 0, 2, 3], [2, 2, 1, 1], [0, 1], [4, 3, 2, 1, 0]]}
+    for t in (1, 2, 3):
+        for m in ms:
+            for e in (es if len(m) < 10 else es[:1]):
+                for aux in auxsets:
+                    for sel in sels[t]:
+                        out.append({"kind": "star_e2e", "m": m.hex(), "e": e.hex(), "t": t, "aux": aux, "selection": sel})
+    if tier == "quick":
+        out = out[::3]
+    return out
+
+
+def c03_scenarios(seed, tier):
+    """payload lengths around the Strobe rate (166) and powers of two; keystream reuse *beyond*
+    the first block (the first block is the known finding D7 and is not re-reported here)"""
+    rnd = random.Random(seed)
+    out = []
+    for n in (1, 12, 127, 128, 129, 165, 166, 167, 170, 255, 256, 257, 333, 1000):
+        key = bytes(rnd.randrange(256) for _ in range(16))
+        out.append({"kind": "c03_masking", "key": key.hex(), "data": bytes(rnd.randrange(1, 256) for _ in range(n)).hex()})
+    for n in (200, 400):
+        a1 = bytes(rnd.randrange(256) for _ in range(n))
+        a2 = bytes(b ^ 0x55 for b in a1)
+        out.append({"kind": "c03_reuse", "m": "6d", "e": "65", "t": 2, "aux1": a1.hex(), "aux2": a2.hex(), "from_offset": 166})
+    return out
+
+
+def c04_scenarios(seed, tier):
+    """pairs of (measurement, epoch, threshold) triples differing in one component, by a
+    boundary shift, or only in bytes that are not valid UTF-8; plus non-zero output buffers"""
+    ms = [b"", b"m", b"me", b"m\x80"]
+    es = [b"", b"e", b"\x80", b"\xff", b"\xef\xbf\xbd", b"e\x80", b"\xc0\x80", b"ee"]
+    ts = [1, 2, 257, 65537, 2**32 - 1]
+    base = [(m, e, t) for m in ms for e in es for t in (1, 2)] + [(b"m", b"e", t) for t in ts]
+    out = []
+    for i, a in enumerate(base):
+        for b in base[i:]:
+            diff = sum(1 for x, y in zip(a, b) if x != y)
+            if diff > 1 and a[0] + a[1] != b[0] + b[1]:
+                continue
+            out.append({"kind": "c04_triples", "m1": a[0].hex(), "e1": a[1].hex(), "t1": a[2], "m2": b[0].hex(), "e2": b[1].hex(), "t2": b[2]})
+    out.append({"kind": "c04_triples", "m1": "6d", "e1": "65", "t1": 2, "m2": "6d", "e2": "65", "t2": 2, "init1": "00" * 32, "init2": "ff" * 32})
+    if tier == "quick":
+        out = out[::2] + out[-1:]
+    return out
+
+
+def c05_scenarios(seed, tier):
+    """every byte of the first (ciphertext-supplying) share flipped, t = 1, 2, with exactly t and
+    with surplus shares; the recorded threshold raised to the number of shares present"""
+    out = []
+    n_enc = 4 + 4 + 48 + 4 + 3 + 4 + 2 + 64
+    for t, n in ((1, 1), (2, 2), (2, 3)):
+        step = 1 if tier != "quick" else 3
+        for pos in range(0, n_enc, step):
+            # threshold 1: the polynomial is constant, the point (bytes 8..32) influences nothing and
+            # is not authenticated; the outcome is still exactly the message (first clause of C05)
+            rej = not (t == 1 and 8 <= pos < 32)
+            out.append({"kind": "adss_scenario", "m": "010203", "r": "0405", "t": t, "n_shares": n, "fault_lo": pos, "fault_hi": pos + 1,
+                        "fault_bytes": "", "flip": True, "must_reject": rej})
+    for t, n in ((1, 2), (1, 3), (2, 3), (2, 4)):
+        out.append({"kind": "adss_scenario", "m": "010203", "r": "0405", "t": t, "n_shares": n, "fault_lo": 0, "fault_hi": 4,
+                    "fault_bytes": n.to_bytes(4, "little").hex(), "must_reject": True})
+    return out
+
+
+def c16_scenarios(seed, tier):
+    rnd = random.Random(seed)
+    out = []
+    for ml, rl in ((0, 0), (1, 1), (4, 0), (0, 4), (32, 32), (300, 7)):
+        m = bytes(rnd.randrange(256) for _ in range(ml))
+        r = bytes(rnd.randrange(256) for _ in range(rl))
+        for t in (1, 2, 3):
+            out.append({"kind": "adss_scenario", "m": m.hex(), "r": r.hex(), "t": t, "n_shares": t, "expect_ok": True})
+            out.append({"kind": "adss_scenario", "m": m.hex(), "r": r.hex(), "t": t, "n_shares": t + 2, "expect_ok": True})
+        out.append({"kind": "adss_scenario", "m": m.hex(), "r": r.hex(), "t": 0, "n_shares": 2})
+        out.append({"kind": "adss_scenario", "m": m.hex(), "r": r.hex(), "t": 2, "n_shares": 2, "custom_transcript": True})
+        m2 = bytes([m[0] ^ 1]) + m[1:] if ml else b"x"
+        out.append({"kind": "adss_coeffs", "m": m.hex(), "r": r.hex(), "m2": m2.hex(), "r2": r.hex()})
+        r2 = bytes([r[0] ^ 1]) + r[1:] if rl else b"y"
+        out.append({"kind": "adss_coeffs", "m": m.hex(), "r": r.hex(), "m2": m.hex(), "r2": r2.hex()})
+    return out
+
+
+def c06_scenarios(seed, tier):
+    out = [{"kind": "gen_script", "t": 2, "words": [0] * (3 * k) + [5, 0, 0]} for k in (0, 1, 2, 3, 5)]
+    out += [{"kind": "dealer_draws", "t": t, "elements": e} for t in (1, 2, 3, 255, 256, 257, 65535, 65536, 65537) for e in (1, 2)]
+    return out
+
+
+NATIVE_FAMILIES = {
+    "native::e2e-scenarios": lambda seed, tier: e2e_scenarios(seed, tier),
+    "native::c03-lengths": c03_scenarios,
+    "native::c04-triples": c04_scenarios,
+    "native::c05-faults": c05_scenarios,
+    "native::c16-scenarios": c16_scenarios,
+    "native::c06-dealer-gen": c06_scenarios,
+    "native::c09-foreign-input": lambda seed, tier: [{"kind": "c09_foreign", "seed": s} for s in ([seed] if tier == "quick" else [seed, seed + 1, seed + 2])],
+}
+
+
+def run_native(obs, tier, seed, log, logdir):
+    """concrete end-to-end scenarios on the natively compiled crates (cross-check)"""
+    import run as runmod
+    bins = runmod.build_replay()
+    results = []
+    for o in obs:
+        t1 = time.time()
+        if not bins:
+            results.append((o, "inconclusive", "replay binary unavailable", {"wall_s": 0}))
+            continue
+        cases = NATIVE_FAMILIES[o["name"]](seed, tier)
+        bad = []
+        tmp = os.path.join(tempfile.gettempdir(), "verif_e2e_%d.json" % os.getpid())
+        for c in cases:
+            json.dump(c, open(tmp, "w"))
+            r = subprocess.run([bins["release"], tmp], stdout=subprocess.PIPE, stderr=subprocess.STDOUT, text=True, timeout=300)
+            if r.returncode == 1:
+                bad.append(c)
+            elif r.returncode != 0:
+                results.append((o, "inconclusive", "scenario runner failed: " + r.stdout[-200:], {"wall_s": 0}))
+                bad = None
+                break
+        if os.path.exists(tmp):
+            os.remove(tmp)
+        if bad is None:
+            continue
+        info = {"wall_s": round(time.time() - t1, 1), "queries": len(cases)}
+        if bad:
+            info["playback_cases"] = bad[:3]
+            results.append((o, "fail", "%d/%d native scenarios fail, e.g. %s" % (len(bad), len(cases), json.dumps(bad[0])[:200]), info))
+            log("  [FAIL] %s: %d/%d scenarios" % (o["name"], len(bad), len(cases)))
+        else:
+            results.append((o, "pass", "", info))
+            log("  [PASS] %-40s %6.1fs  %d scenarios" % (o["name"], info["wall_s"], len(cases)))
+    return results
+
+
+def run_ggm(obs, tier, seed, log, logdir):
+    """C10 / C11 / C14: symbolic execution of ppoprf's MIR (see mirsmt/ggm.py)"""
+    from mirsmt import c07, ggm
+    results = []
+    t0 = time.time()
+    mir_text = dump_mir(log, "ppoprf")
+    if mir_text is None:
+        return [(o, "inconclusive", "MIR dump of ppoprf failed", {"wall_s": 0}) for o in obs]
+    for o in obs:
+        t1 = time.time()
+        info = {"wall_s": 0}
+        try:
+            E = c07.Engine("", log=lambda *_: None)
+            E.qdir = os.path.join(VERIF, ".cache", "smt-queries-ggm")
+            shutil.rmtree(E.qdir, ignore_errors=True)
+            R = ggm.Run(mir_text)
+            kind, k = o["ggm"]
+            st = ggm.obligations(E, R, k) if kind == "history" else ggm.server_obligations(E, R, k)
+            done = E.flush(cap_s=120)
+            want = o.get("tags")  # restrict this obligation to query families (c10:: / c11:: / c14::)
+            mine = [q for q in done if want is None or q["tag"][0].startswith(tuple(want))]
+            bad = [q for q in mine if q["expect"] == "unsat" and q["verdict"] != "unsat"]
+            feas = [q for q in mine if q["expect"] == "sat"]
+            nfeas = sum(1 for q in feas if q["verdict"] == "sat")
+            info = {"wall_s": round(time.time() - t1, 1), "solver_s": round(E.solver_s, 1), "queries": len(mine),
+                    "feasible_paths": nfeas, "symbolic_execution": st}
+            if not bad and nfeas > 0 and nfeas == len(feas):
+                stt, why = "pass", ""
+            elif any(q["verdict"] == "sat" for q in bad):
+                q = [q for q in bad if q["verdict"] == "sat"][0]
+                mi = model_inputs(q["raw"])
+                stt, why = "fail", "%s: %s" % (q["tag"][0], q["tag"][2])
+                info["playback_cases"] = [ggm_case(mi, k, q["tag"])]
+                info["model"] = mi
+            else:
+                stt = "inconclusive"
+                why = ("%d queries without a definite answer, e.g. %s %s" % (len(bad), bad[0]["tag"], bad[0]["answers"])) if bad else \
+                      "only %d of %d paths shown feasible" % (nfeas, len(feas))
+        except Exception as e:  # noqa
+            stt, why = "inconclusive", "MIR interpreter does not support the current source of ppoprf::ggm: %r" % (e,)
+            info = {"wall_s": round(time.time() - t1, 1)}
+        results.append((o, stt, why, info))
+        log("  [%s] %-40s %6.1fs  %s" % (stt.upper()[:4], o["name"], info.get("wall_s", 0), why[:200]))
+    return results
+
+
+def ggm_case(mi, k, tag):
+    """solver model (bits of p1..pk and y) -> native replay case"""
+    def byte(name):
+        import re
+        v = 0
+        for i in range(8):
+            b = mi.get("%s_%d" % (name, i))
+            if b in (1, True, "true"):
+                v |= 1 << i
+        return v
+    return {"kind": "ggm_history", "punctures": [byte("p%d" % i) for i in range(1, k + 1)], "probe": byte("y"),
+            "claim": "%s: %s" % (tag[0], tag[2])}
 
 
 def run_recover(obs, tier, seed, log, logdir):
@@ -352,6 +604,41 @@ def run_recover(obs, tier, seed, log, logdir):
                     st, why = "inconclusive", "%d queries without a definite answer, e.g. %s %s" % (len(bad), bad[0]["tag"], bad[0]["answers"])
             except Exception as e:  # noqa
                 st, why, info = "inconclusive", "MIR interpreter does not support the current source of Sharks::recover: %r" % (e,), {"wall_s": round(time.time() - t0, 1)}
+            results.append((o, st, why, info))
+            log("  [%s] %-40s %6.1fs  %s" % (st.upper()[:4], o["name"], info.get("wall_s", 0), why[:200]))
+    o = by.get("mir::dealer-threshold")
+    if o is not None:
+        t1 = time.time()
+        if mir_text is None:
+            results.append((o, "inconclusive", "MIR dump failed", {"wall_s": 0}))
+        else:
+            try:
+                from mirsmt import dealer
+                E = c07.Engine(mir_text, log=lambda *_: None)
+                E.qdir = os.path.join(VERIF, ".cache", "smt-queries-dealer")
+                shutil.rmtree(E.qdir, ignore_errors=True)
+                ncases = dealer.obligations(E, nels=(1, 2), n_iter=4 if tier == "quick" else 8)
+                done = E.flush(cap_s=120)
+                bad = [q for q in done if q["expect"] == "unsat" and q["verdict"] != "unsat"]
+                feas = [q for q in done if q["expect"] == "sat"]
+                nfeas = sum(1 for q in feas if q["verdict"] == "sat")
+                info = {"wall_s": round(time.time() - t1, 1), "solver_s": round(E.solver_s, 1), "queries": len(done),
+                        "cases": ncases, "feasible_paths": nfeas}
+                if not bad and nfeas > 0 and nfeas == len(feas):
+                    st, why = "pass", ""
+                elif any(q["verdict"] == "sat" for q in bad):
+                    sat = [q for q in bad if q["verdict"] == "sat"]
+                    ts = []
+                    for q in sat:
+                        mi = model_inputs(q["raw"])
+                        if "T" in mi and mi["T"] not in ts:
+                            ts.append(mi["T"])
+                    st, why = "fail", "%s: solver model T=%s" % (sat[0]["tag"], ts[:4])
+                    info["playback_cases"] = [{"kind": "dealer_draws", "t": t, "elements": 1} for t in ts[:4]]
+                else:
+                    st, why = "inconclusive", "%d queries without a definite answer, e.g. %s %s" % (len(bad or feas), (bad or feas)[0]["tag"], (bad or feas)[0].get("answers"))
+            except Exception as e:  # noqa
+                st, why, info = "inconclusive", "MIR interpreter does not support the current source of Sharks::dealer_rng / random_polynomial: %r" % (e,), {"wall_s": round(time.time() - t1, 1)}
             results.append((o, st, why, info))
             log("  [%s] %-40s %6.1fs  %s" % (st.upper()[:4], o["name"], info.get("wall_s", 0), why[:200]))
     o = by.get("mir::recover-vectors")
